@@ -540,7 +540,7 @@ class Hdf5Saver:
         if obj_reduce is not None:
             rv = obj_reduce()
             if isinstance(rv, str):
-                h5gr = self.save_global(obj, REPR_GLOBAL)
+                h5gr = self.save_global(obj, path, REPR_GLOBAL)
                 return h5gr
             if not isinstance(rv, tuple) or not 2 <= len(rv) < 7:
                 raise Hdf5ExportError(f'Wrong return value of {obj_reduce!r}')
@@ -620,11 +620,11 @@ class Hdf5Saver:
         if state is not None:
             self.save(state, subpath + 'state')
         if listitems is not None:
-            self.save(state, subpath + 'listitems')
+            self.save(list(listitems), subpath + 'listitems')
         if dictitems is not None:
-            self.save(state, subpath + 'dictitems')
+            self.save(list(dictitems), subpath + 'dictitems')
         if state_setter is not None:
-            self.save(state, subpath + 'state_setter')
+            self.save(state_setter, subpath + 'state_setter')
         return h5gr
 
     # save_reduce is called directly from `save()`, not dispatched.
